@@ -1,9 +1,12 @@
 import TF.Proofs.MmrMember
 import TF.Proofs.MmrNodeIndex
+import TF.Proofs.MmrUpdAppend
+import TF.Proofs.MmrUpdAppendBatch
 /-!
 # C05 — MMR membership proofs stay exact through every history; verification exact
 
-Property theorems only (helper lemmas: `TF/Proofs/MmrE.lean`, `TF/Proofs/MmrMember.lean`).
+Property theorems only (helper lemmas: `TF/Proofs/MmrE.lean`, `TF/Proofs/MmrMember.lean`, `TF/Proofs/MmrNodeIndex.lean`,
+`TF/Proofs/MmrUpdAppend.lean`, `TF/Proofs/MmrUpdAppendBatch.lean`).
 
 Model (`TF/Model/MmrMember.lean`, `TF/Model/MmrAccE.lean`; `none` = panic or non-termination of the Rust code):
 `memberVerify` = `MmrMembershipProof::verify`, `updateFromAppend`, `batchUpdateFromAppend`, `updateFromLeafMutation`,
@@ -119,14 +122,18 @@ theorem mutation_keeps_own_proof (g : Nat → D) (n i : Nat) (d : D) (hlt : i < 
 
 /-! ## the update routines and whole histories
 
-Full statements (type-checked `def … : Prop`).  Their proofs need the node-index theory of the loop functions
-(`right_lineage_length_and_own_height`, `parent`, `get_authentication_path_node_indices`,
-`get_peak_heights_and_peak_node_indices`, `node_indices_added_by_append` — C16) and are not yet done; what *is* proved:
-the specification-level content of an update (`update_from_append_spec_partial`, `update_from_leaf_mutation_spec_partial`)
-and the induction over the operation list that reduces the history theorem to the per-routine statements
-(`history_preserves_proofs_partial`).  The statements themselves are checked for every MMR shape up to 64 leaves over a
-free hash algebra by the bounded model check `mmrp free_check` (a test) and on the implementation by the correspondence
-(every tracked proof compared with the from-scratch path after every operation of every generated history). -/
+**Append routines: proved.**  `update_from_append_spec` and `batch_update_from_append_spec` below are theorems (helper
+lemmas in `TF/Proofs/MmrUpdAppend.lean`, `TF/Proofs/MmrUpdAppendBatch.lean`: the index functions
+`node_indices_added_by_append`, `get_peak_heights_and_peak_node_indices`, `get_authentication_path_node_indices`,
+`get_peak_index_and_height` in post-order `nodeIdx` form, and the `HashMap` bookkeeping of `known_digests`).
+
+**Mutation routines:** full statements (type-checked `def … : Prop`); what *is* proved is the specification-level
+content (`update_from_leaf_mutation_spec_partial`) and the induction over the operation list that reduces the history
+theorem to the per-routine mutation statements (`history_preserves_proofs_partial`; the append step is discharged by
+`update_from_append_spec` and `append_returns_auth_path`).  The open statements are checked for every MMR shape up to 64
+leaves over a free hash algebra by the bounded model check `mmrp free_check` (a test) and on the implementation by the
+correspondence (every tracked proof compared with the from-scratch path after every operation of every generated
+history). -/
 
 /-- indices `k` of the handed proofs whose digests changed between the leaf lists `g` and `g'` -/
 def changedSlots (g g' : Nat → D) (n n' : Nat) (lis : List Nat) : List Nat :=
@@ -135,18 +142,44 @@ def changedSlots (g g' : Nat → D) (n n' : Nat) (lis : List Nat) : List Nat :=
 /-- apply a batch of leaf assignments -/
 def applyMuts (g : Nat → D) (ms : List (Nat × D)) : Nat → D := ms.foldl (fun g m => Function.update g m.1 m.2) g
 
-/-- `update_from_append`: a from-scratch path becomes the from-scratch path of the longer range; `true` iff it changed -/
-def update_from_append_spec_statement : Prop :=
-  ∀ (D : Type) [DecidableEq D] (H : D → D → D) (g : Nat → D) (n i : Nat), i < n → n + 1 < 2 ^ 63 →
+/-- **update_from_append_spec** (`MmrMembershipProof::update_from_append`): given the from-scratch path of leaf `i` in
+    the `n`-leaf range, the old peaks and the new leaf, the routine returns exactly the from-scratch path of leaf `i`
+    in the `(n+1)`-leaf range, and `true` iff the path changed — for every hash, every leaf list, every `i < n`, every
+    leaf count with `n + 1 < 2^63`; it never panics there.  (Helper lemmas: `TF/Proofs/MmrUpdAppend.lean`.) -/
+theorem update_from_append_spec (g : Nat → D) (n i : Nat) (hlt : i < n) (hn : n + 1 < 2 ^ 63) :
     updateFromAppend H (authPathOf H g n i) i n (g n) (peaks H n g)
-      = some (authPathOf H g (n + 1) i, decide (authPathOf H g (n + 1) i ≠ authPathOf H g n i))
+      = some (authPathOf H g (n + 1) i, decide (authPathOf H g (n + 1) i ≠ authPathOf H g n i)) :=
+  UpdAppend.updateFromAppend_spec H g n i hlt hn
+/-- non-vacuity: 3 leaves `1, 2, 3` under the toy hash `a + 2 b`, peaks `[5, 3]`; appending `4` merges everything, the
+    proof `[2]` of leaf 0 becomes `[2, 11]` -/
+example : updateFromAppend (fun a b : Nat => a + 2 * b) [2] 0 3 4 [5, 3] = some ([2, 11], true) := by decide +kernel
+example : authPathOf (fun a b : Nat => a + 2 * b) (fun k => k + 1) 4 0 = [2, 11] ∧
+    authPathOf (fun a b : Nat => a + 2 * b) (fun k => k + 1) 3 0 = [2] ∧
+    peaks (fun a b : Nat => a + 2 * b) 3 (fun k => k + 1) = [5, 3] := by decide +kernel
 
-/-- `batch_update_from_append`: any list of leaf indices (any subset, any order); reports exactly the changed proofs -/
-def batch_update_from_append_spec_statement : Prop :=
-  ∀ (D : Type) [DecidableEq D] (H : D → D → D) (g : Nat → D) (n : Nat) (lis : List Nat),
-    (∀ i ∈ lis, i < n) → n + 1 < 2 ^ 63 →
+/-- **batch_update_from_append_spec** (`MmrMembershipProof::batch_update_from_append`): for any list of old leaf
+    indices (any subset, any order, repetitions allowed) handed over with their from-scratch paths, the routine returns
+    exactly the from-scratch paths in the `(n+1)`-leaf range and reports exactly the slots whose path changed — for every
+    hash, every leaf list, every leaf count with `n + 1 < 2^63`; it never panics there. -/
+theorem batch_update_from_append_spec (g : Nat → D) (n : Nat) (lis : List Nat) (hall : ∀ i ∈ lis, i < n)
+    (hn : n + 1 < 2 ^ 63) :
     batchUpdateFromAppend H (lis.map (authPathOf H g n)) lis n (g n) (peaks H n g)
-      = some (lis.map (authPathOf H g (n + 1)), changedSlots H g g n (n + 1) lis)
+      = some (lis.map (authPathOf H g (n + 1)), changedSlots H g g n (n + 1) lis) :=
+  UpdAppend.batchUpdateFromAppend_spec H g n lis hall hn
+/-- non-vacuity: 7 leaves `1 … 7` under the toy hash `a + 2 b` (peaks `[27, 17, 7]`), appending `8` merges all three
+    trees; the proofs of the leaves `6, 0, 4` (in this order) are extended by 3, 1, 2 digests and all slots are reported -/
+example : batchUpdateFromAppend (fun a b : Nat => a + 2 * b) [[], [2, 11], [6]] [6, 0, 4] 7 8 [27, 17, 7]
+    = some ([[8, 17, 27], [2, 11, 63], [6, 23, 27]], [0, 1, 2]) := by decide +kernel
+example : [6, 0, 4].map (authPathOf (fun a b : Nat => a + 2 * b) (fun k => k + 1) 7) = [[], [2, 11], [6]] ∧
+    [6, 0, 4].map (authPathOf (fun a b : Nat => a + 2 * b) (fun k => k + 1) 8) = [[8, 17, 27], [2, 11, 63], [6, 23, 27]] ∧
+    peaks (fun a b : Nat => a + 2 * b) 7 (fun k => k + 1) = [27, 17, 7] := by decide +kernel
+/-- non-vacuity, mixed: 5 leaves, appending a 6th merges only the last tree; leaf 4 handed over twice: slots 0 and 2
+    change, slot 1 (leaf 0) does not -/
+example : batchUpdateFromAppend (fun a b : Nat => a + 2 * b) [[], [2, 11], []] [4, 0, 4] 5 6 [27, 5]
+    = some ([[6], [2, 11], [6]], [0, 2]) := by decide +kernel
+/-- non-vacuity of the early return: 6 leaves, appending a 7th merges nothing, nothing is reported -/
+example : batchUpdateFromAppend (fun a b : Nat => a + 2 * b) [[2, 11], [6]] [0, 4] 6 7 [27, 17] = some ([[2, 11], [6]], [])
+    := by decide +kernel
 
 /-- `update_from_leaf_mutation`: the from-scratch path of the changed leaf list; `false` only if nothing changed -/
 def update_from_leaf_mutation_spec_statement : Prop :=
@@ -209,7 +242,7 @@ def history_preserves_proofs_statement : Prop :=
 /-- **what is proved about `update_from_append`** (specification level): after an append, the from-scratch path of an
     old leaf is its old path extended by the sibling digests between its old peak and its new peak, and nothing else
     changes; the tree above a leaf never gets lower.  (That the routine computes exactly this extension from the old
-    peaks and the new leaf is `update_from_append_spec_statement`; tested, see above.) -/
+    peaks and the new leaf is `update_from_append_spec`, proved above.) -/
 theorem update_from_append_spec_partial (g : Nat → D) (n i : Nat) (hlt : i < n) :
     (locate n i).1 ≤ (locate (n + 1) i).1 ∧
     authPathOf H g (n + 1) i = authPathOf H g n i ++
@@ -225,11 +258,76 @@ theorem update_from_leaf_mutation_spec_partial (g g' : Nat → D) (n i j : Nat) 
     ((∀ k < n, g k = g' k) → authPathOf H g n i = authPathOf H g' n i) :=
   ⟨authPathOf_update_self H g n j d, authPathOf_congr H g g' n i hlt⟩
 
-/-- **history_preserves_proofs, reduced to the per-routine statements**: the induction over the operation list. Given
-    the specifications of `update_from_append`, `update_from_leaf_mutation` and `batch_mutate_leaf_and_update_mps`, every
-    valid history from the empty range keeps the accumulator and every tracked proof equal to the from-scratch ones. -/
+/-- **one append keeps every tracked proof exact** (no assumption): from the from-scratch state of `n` leaves, the step
+    "pass every tracked proof through `update_from_append`, then `append`" yields the from-scratch state of `n+1` leaves -/
+theorem append_step_honest (g : Nat → D) (n : Nat) (d : D) (hop : n + 1 < 2 ^ 63) :
+    ∃ st1, HState.step H ⟨⟨n, peaks H n g⟩, (List.range n).map (authPathOf H g n)⟩ (.append d) = some st1 ∧
+      Honest H st1 (leavesStep (n, g) (.append d)) := by
+  have hg' : ∀ j < n, g j = Function.update g n d j := fun j hj => by
+    rw [Function.update_of_ne (by omega)]
+  have hpk : peaks H n g = peaks H n (Function.update g n d) := peaks_congr H n _ _ hg'
+  have hd : d = Function.update g n d n := by simp
+  have happ := append_spec H n (Function.update g n d) (by omega)
+  have hup : ∀ k < n, updateFromAppend H (authPathOf H g n k) k n d (peaks H n g)
+      = some (authPathOf H (Function.update g n d) (n + 1) k,
+          decide (authPathOf H (Function.update g n d) (n + 1) k ≠ authPathOf H (Function.update g n d) n k)) := by
+    intro k hk
+    have := update_from_append_spec H (Function.update g n d) n k hk hop
+    rw [← hpk, ← hd, ← authPathOf_congr H g _ n k hk hg'] at this
+    rw [this, ← authPathOf_congr H g _ n k hk hg']
+  rw [← hpk, ← hd] at happ
+  have hmap : mapIdxM (fun i p => (updateFromAppend H p i n d (peaks H n g)).map (·.1))
+        ((List.range n).map (authPathOf H g n)) 0
+      = some ((List.range' 0 n).map (authPathOf H (Function.update g n d) (n + 1))) := by
+    rw [List.range_eq_range']
+    apply mapIdxM_spec
+    intro k _ hk
+    rw [hup k (by omega)]; rfl
+  refine ⟨⟨⟨n + 1, peaks H (n + 1) (Function.update g n d)⟩,
+    (List.range' 0 n).map (authPathOf H (Function.update g n d) (n + 1))
+      ++ [authPathOf H (Function.update g n d) (n + 1) n]⟩, ?_, ⟨rfl, ?_⟩⟩
+  · unfold HState.step; simp only [hmap, Option.bind_some, happ]
+  · simp only [leavesStep]
+    rw [List.range_succ, List.map_append, List.range_eq_range']
+    rfl
+example : (HState.step (fun a b : Nat => a + 2 * b) ⟨⟨3, [5, 3]⟩, [[2], [1], []]⟩ (.append 4)).map
+      (fun st => (st.acc.count, st.acc.peaks, st.proofs))
+    = some (4, [27], [[2, 11], [1, 11], [4, 5], [3, 5]]) := by decide +kernel
+
+/-- **append-only histories keep every tracked proof exact** (no assumption): from the empty range, after appending any
+    list of fewer than `2^63` leaves with every tracked proof passed through `update_from_append` at every step, the
+    accumulator is the from-scratch accumulator and every leaf's proof is exactly its from-scratch authentication path -/
+theorem append_history_preserves_proofs (g0 : Nat → D) (ds : List D) (hlen : ds.length < 2 ^ 63) :
+    ∃ st, HState.run H ⟨⟨0, []⟩, []⟩ (ds.map .append) = some st ∧
+      Honest H st ((ds.map HOp.append).foldl leavesStep (0, g0)) := by
+  suffices hgen : ∀ (ds : List D) (s : Nat × (Nat → D)) (st : HState D), s.1 + ds.length < 2 ^ 63 → Honest H st s →
+      ∃ st', HState.run H st (ds.map .append) = some st' ∧
+        Honest H st' ((ds.map HOp.append).foldl leavesStep s) from
+    hgen ds (0, g0) ⟨⟨0, []⟩, []⟩ (by simpa using hlen) ⟨by simp [peaks_zero], by simp⟩
+  intro ds
+  induction ds with
+  | nil => intro s st _ hh; exact ⟨st, rfl, hh⟩
+  | cons d ds ih =>
+    intro s st hs hh
+    obtain ⟨n, g⟩ := s
+    obtain ⟨hacc, hpr⟩ := hh
+    obtain ⟨acc, proofs⟩ := st
+    simp only [List.length_cons] at hs hacc hpr
+    subst hacc; subst hpr
+    obtain ⟨st1, h1, hh1⟩ := append_step_honest H g n d (by omega)
+    obtain ⟨st', h2, hh2⟩ := ih (leavesStep (n, g) (.append d)) st1 (by simp only [leavesStep]; omega) hh1
+    exact ⟨st', by rw [List.map_cons, HState.run, h1, Option.bind_some, h2], hh2⟩
+example : (HState.run (fun a b : Nat => a + 2 * b) ⟨⟨0, []⟩, []⟩ ([1, 2, 3, 4].map .append)).map
+      (fun st => (st.acc.count, st.acc.peaks, st.proofs))
+    = some (4, [27], [[2, 11], [1, 11], [4, 5], [3, 5]]) := by decide +kernel
+
+/-- **history_preserves_proofs, reduced to the per-routine mutation statements**: the induction over the operation list.
+    Given the specifications of `update_from_leaf_mutation` and `batch_mutate_leaf_and_update_mps` (the append step needs
+    no assumption: `update_from_append_spec`, `append_returns_auth_path`), every valid history from the empty range keeps
+    the accumulator and every tracked proof equal to the from-scratch ones.  In particular every history that consists
+    of appends only is covered unconditionally (`append_history_preserves_proofs`). -/
 theorem history_preserves_proofs_partial
-    (hA : update_from_append_spec_statement) (hM : update_from_leaf_mutation_spec_statement)
+    (hM : update_from_leaf_mutation_spec_statement)
     (hB : batch_mutate_leaf_and_update_mps_spec_statement) : history_preserves_proofs_statement := by
   intro D _ H g0 ops
   -- generalise the start: any honest state below 2^63 leafs
@@ -254,33 +352,8 @@ theorem history_preserves_proofs_partial
       cases op with
       | append d =>
         simp only at hop
-        have hg' : ∀ j < n, g j = Function.update g n d j := fun j hj => by
-          rw [Function.update_of_ne (by omega)]
-        have hpk : peaks H n g = peaks H n (Function.update g n d) := peaks_congr H n _ _ hg'
-        have hd : d = Function.update g n d n := by simp
-        have happ := append_spec H n (Function.update g n d) (by omega)
-        have hup : ∀ k < n, updateFromAppend H (authPathOf H g n k) k n d (peaks H n g)
-            = some (authPathOf H (Function.update g n d) (n + 1) k,
-                decide (authPathOf H (Function.update g n d) (n + 1) k ≠ authPathOf H (Function.update g n d) n k)) := by
-          intro k hk
-          have := hA D H (Function.update g n d) n k hk hop
-          rw [← hpk, ← hd, ← authPathOf_congr H g _ n k hk hg'] at this
-          rw [this, ← authPathOf_congr H g _ n k hk hg']
-        rw [← hpk, ← hd] at happ
-        have hmap : mapIdxM (fun i p => (updateFromAppend H p i n d (peaks H n g)).map (·.1))
-              ((List.range n).map (authPathOf H g n)) 0
-            = some ((List.range' 0 n).map (authPathOf H (Function.update g n d) (n + 1))) := by
-          rw [List.range_eq_range']
-          apply mapIdxM_spec
-          intro k _ hk
-          rw [hup k (by omega)]; rfl
-        refine ⟨⟨⟨n + 1, peaks H (n + 1) (Function.update g n d)⟩,
-          (List.range' 0 n).map (authPathOf H (Function.update g n d) (n + 1))
-            ++ [authPathOf H (Function.update g n d) (n + 1) n]⟩, ?_, ⟨rfl, ?_⟩, hop⟩
-        · unfold HState.step; simp only [hmap, Option.bind_some, happ]
-        · simp only [leavesStep]
-          rw [List.range_succ, List.map_append, List.range_eq_range']
-          rfl
+        obtain ⟨st1, h1, h2⟩ := append_step_honest H g n d hop
+        exact ⟨st1, h1, h2, hop⟩
       | mutate i d =>
         simp only at hop
         have hpi : ((List.range n).map (authPathOf H g n))[i]? = some (authPathOf H g n i) :=
